@@ -237,6 +237,18 @@ def run(tier):
         s_ = r.choice(["Glc", "Gal", "Man"])
         p_ = r.choice(SUGARS[s_])
         lf.append((f"{p_}-O-{tok}-{s_}", f"{s_}{p_}{tok}"))
+    # the compact bridged spelling <p>O<group> / <p>N<group> as well, where it tokenises as bridge + group (judged
+    # when it converts: all-capital tokens are not read in this spelling)
+    compact_bridged = set()
+    for tok in (sorted(toks) if tier == "thorough" else r.sample(sorted(toks), 12)):
+        for br in "ON":
+            s_ = r.choice(["Glc", "Gal", "Man"])
+            p_ = r.choice(SUGARS[s_])
+            comp = f"{s_}{p_}{br}{tok}"
+            lx = orc.drv.call("lex", comp)
+            if lx != "NOLEX" and [C.Driver.unesc(x.split("\x1e")[1]) for x in lx.split("\x1f")][-2:] == [br, tok]:
+                lf.append((comp, f"{p_}-{br}-{tok}-{s_}"))
+                compact_bridged.add(comp)
     for tok in (ncarried if tier == "thorough" else r.sample(ncarried, min(len(ncarried), 4))):
         s_ = r.choice(["Glc", "Gal", "Man"])
         lf.append((f"2-N-{tok}-{s_}", f"{s_}2{tok}"))
@@ -252,7 +264,7 @@ def run(tier):
     stats["long_form"] = 0
     for a_, b_ in lf:
         x, y = lo[a_]["smiles"], lo[b_]["smiles"]
-        if not y:
+        if not y or (a_ in compact_bridged and not x):
             continue
         stats["long_form"] += 1
         report.case(a_, True)
